@@ -239,6 +239,29 @@ func (c *childState) runCase(idx int, cs Case) {
 				c.zip(cs, fmt.Sprintf("Old_%d/New_%d", n, n), n, o.GetSSAFunction(), nw.GetSSAFunction(), pol.name, pol.p)
 			}
 		}
+	case "litblocks":
+		for _, k := range cs.Params {
+			name := fmt.Sprintf("Q_%d$1", k)
+			r, ok := names[name]
+			if !ok {
+				c.emit(Rec{Case: cs.ID, Family: cs.Family, Kind: cs.Kind, Param: k, Func: name, Err: "function literal not found in results"})
+				continue
+			}
+			fn := r.GetSSAFunction()
+			in, bl, us := fnSize(fn)
+			rec := Rec{Case: cs.ID, Family: cs.Family, Kind: cs.Kind, Func: name, Param: k, Instrs: in, Blocks: bl, Uses: us}
+			c.progress(idx, "GenerateFingerprint "+name)
+			var res diff.FingerprintResult
+			for rep := 0; rep < 2; rep++ {
+				m, by := measure(func() { res = diff.GenerateFingerprint(fn, ir.DefaultLiteralPolicy, false) })
+				if rep == 0 || m < rec.Mallocs {
+					rec.Mallocs, rec.Bytes = m, by
+				}
+			}
+			rec.FP = res.Fingerprint
+			rec.IRLen = len(res.CanonicalIR)
+			c.emit(rec)
+		}
 	case "fp", "blocks":
 		for _, k := range cs.Params {
 			name := fmt.Sprintf("L_%d", k)
